@@ -19,6 +19,7 @@ RULE = (
     "Non-trivial: some pattern has an X fan-in masked by a controlling value at an and/or-family gate "
     "with fan-in >= 2. Distinct by digest."
 )
+RULE += ' Added after seeded-change rounds 4-5: fan-in names whose underscore-joins coincide, numbered names that are prefixes of each other, pools of suffix-related names (x / x_inv / x[0] / x_0).'
 ASSUMPTIONS = ["reference simulator and Kleene evaluator in cgv (refsim.kleene + bit-parallel variant)"]
 EXHAUSTIVE_NOTE = "core: each gate type x fan-in 1..3 single-gate circuits and with a constant operand, all patterns"
 EXAMPLES = {"quick": 2000, "thorough": 40000}
